@@ -1,9 +1,9 @@
 SPECIFICATION Spec
 CONSTANTS ResetOnError = TRUE
- ZeroTimerGuarded = TRUE
- KindSet = "all"
+ ZeroTimerGuarded = FALSE
+ KindSet = "z"
  NN = 2
- Mode = "labels"
+ Mode = "plain"
 INVARIANT Released
 INVARIANT Depth1
 INVARIANT RecursionIsFatal
